@@ -21,8 +21,51 @@ TOTAL = [
 ]
 
 
+import re
+from .mirlib import callee, op_local
+
+MASKS = [
+    # (fn, name of the mask parameter as documented): a null in the mask means 'not selected'
+    ("arrow_select::merge::merge", "mask"),
+    ("arrow_select::zip::maybe_prep_null_mask_filter", "predicate"),
+    ("arrow_select::nullif::nullif", "right"),
+    ("arrow_select::filter::IndexIterator::new", "filter"),
+]
+MASK_READ = re.compile(r"BooleanArray::values$|SlicesIterator::new$|IndexIterator::new$|BitIndexIterator")
+NULL_HANDLING = re.compile(r"::(null_count|nulls|prep_null_mask_filter|logical_nulls|is_null|is_valid|into_parts|logical_null_count)$")
+
+
+def run_masks(ck, F):
+    ck.rule("C03.mask-nulls-handled", "kernels taking a boolean selection mask read the mask's value bits only after consulting its validity (null = not selected): "
+            "the bit under a null slot is arbitrary", floor=len(MASKS))
+    for fid, pname in MASKS:
+        fn = F.resolve(fid)
+        if fn is None:
+            ck.missing_anchor(fid, "C03.mask-nulls-handled")
+            continue
+        b = Body(fn)
+        params = [i for i in range(1, b.argc + 1) if re.fullmatch(r"&arrow_array::(array::boolean_array::)?BooleanArray", b.locals[i])]
+        verdicts = []
+        for p in params:
+            al = b.taint({p}, through_calls=False)
+            reads = [bb for bb, t in b.calls() if MASK_READ.search(flow.norm(callee(t) or "")) and t["args"] and op_local(t["args"][0]) in al]
+            if not reads:
+                continue
+            nh = [bb for bb, t in b.calls() if NULL_HANDLING.search(flow.norm(callee(t) or "")) and t["args"] and op_local(t["args"][0]) in al]
+            verdicts.append((b.var_name(p), [b.loc(r) for r in reads if not (nh and b.must_pass(nh, r))]))
+        key = flow.norm(fid)
+        if not verdicts:
+            ck.ok("C03.mask-nulls-handled", key, "the mask's value bits are not read directly any more", nontrivial=False)
+        elif all(not bad for _, bad in verdicts):
+            ck.ok("C03.mask-nulls-handled", key, "value bits of %s read only after the validity was consulted" % [v[0] for v in verdicts])
+        else:
+            ck.bad("C03.mask-nulls-handled", key, "%s reads the value bits of its mask at %s without first consulting the mask's validity: a null mask slot whose bit is set "
+                   "selects the row" % (fid, [bad for _, bad in verdicts if bad]), [bad for _, bad in verdicts if bad][0][0])
+
+
 def run(ck, tier):
     F = factsmod.Facts("ws")
+    run_masks(ck, F)
     ck.rule("C03.dispatch-total", "filter / take / concat / interleave / MutableArrayData extend / make_array / layout route every DataType constructor to an "
             "implementation or the generic fallback; diverging arms are reached only by the enumerated constructors handled elsewhere", floor=len(TOTAL) * 38)
     variants = dtm.enum_variants(F, "arrow_schema::datatype::DataType")
